@@ -496,3 +496,26 @@ pub fn run_growth(_seed: u64, tier: &str, out: &mut dyn FnMut(String)) {
         out(crate::scen_exec::observe_exec(&mut iset, name, st));
     }
 }
+
+/// re-executes a `growth` request (pre-state, number of steps) on the current tree
+pub fn replay_growth(xs: &[Sx]) -> Option<String> {
+    let mut st = dec_state(xs.get(0)?)?;
+    let n: usize = match xs.get(1)? {
+        Sx::Atom(a) => a.parse().ok()?,
+        _ => return None,
+    };
+    let pre = enc_state(&st);
+    let nid = next_node_id();
+    let mut iset = make_iset(false);
+    let icache = iset.cache();
+    let r = catch_unwind(AssertUnwindSafe(|| {
+        for _ in 0..n {
+            PushInterpreter::step(&mut st, &mut iset, &icache);
+        }
+        st
+    }));
+    Some(match r {
+        Ok(s) => format!("( growth {} {} {} {} )", pre, n, enc_state(&s), nid),
+        Err(_) => format!("( growth {} {} PANIC {} )", pre, n, nid),
+    })
+}
